@@ -231,6 +231,9 @@ class Interface(ModelElement):
         if_sliver.set_property(prop_name=pname, prop_val=pval)
         # write into the graph
         prop_dict = self.topo.graph_model.interface_sliver_to_graph_properties_dict(if_sliver)
+        if pname != 'stitch_node':
+            # the blank sliver's default must not overwrite the stored flag
+            prop_dict.pop(ABCPropertyGraph.PROP_STITCH_NODE, None)
         self.topo.graph_model.update_node_properties(node_id=self.node_id, props=prop_dict)
 
     def set_properties(self, **kwargs):
@@ -243,6 +246,9 @@ class Interface(ModelElement):
         if_sliver.set_properties(**kwargs)
         # write into the graph
         prop_dict = self.topo.graph_model.interface_sliver_to_graph_properties_dict(if_sliver)
+        if 'stitch_node' not in kwargs:
+            # the blank sliver's default must not overwrite the stored flag
+            prop_dict.pop(ABCPropertyGraph.PROP_STITCH_NODE, None)
         self.topo.graph_model.update_node_properties(node_id=self.node_id, props=prop_dict)
 
     @staticmethod
